@@ -7,7 +7,7 @@
                     None = DecodingFailed (an unpaired surrogate)
      encode_text    what TextArchive::serialize does to title, keys and messages before writing them, for the Unicode
                     format and keys / title in the ASCII range 1..127, on which Shift-JIS (WHATWG, encoding_rs) is the
-                    identity
+                    identity; encode_text_fmt: also the legacy format with ASCII messages (identity)
      history_file   new -> any sequence of set_message / delete_message / set_title / ... -> serialize
      parse_text     from_bytes, decoded back to scalar values (get_title / get_entries)
    Definitions only; proofs in Proofs/Utf16Proofs.v and Proofs/TextHistory.v. *)
@@ -53,7 +53,13 @@ Fixpoint decode_entries (es : list (str * str)) : option (list (str * str)) :=
 Definition decode_text (t : tmap) : option tmap :=
   option_map (fun es => {| t_title := t_title t; t_entries := es; t_dirty := t_dirty t |}) (decode_entries (t_entries t)).
 
-Definition history_file (m : mode) (e : endian) (ops : list top) : outcome bytes :=
-  TextFormat.serialize m Unicode e (encode_text (tm_run ops)).
-Definition parse_text (e : endian) (f : bytes) : outcome (option tmap) :=
-  t <- TextFormat.from_bytes Unicode e f ;; Ok (decode_text t).
+(* per format: the legacy format passes messages through to_shift_jis as well (identity on ASCII) and stores no title *)
+Definition encode_text_fmt (fmt : tformat) (t : tmap) : tmap :=
+  match fmt with Unicode => encode_text t | ShiftJIS => t end.
+Definition decode_text_fmt (fmt : tformat) (t : tmap) : option tmap :=
+  match fmt with Unicode => decode_text t | ShiftJIS => Some t end.
+
+Definition history_file (m : mode) (fmt : tformat) (e : endian) (ops : list top) : outcome bytes :=
+  TextFormat.serialize m fmt e (encode_text_fmt fmt (tm_run ops)).
+Definition parse_text (fmt : tformat) (e : endian) (f : bytes) : outcome (option tmap) :=
+  t <- TextFormat.from_bytes fmt e f ;; Ok (decode_text_fmt fmt t).
